@@ -188,6 +188,13 @@ def run(chk):
                 r = ps.ret()
                 inc = [c for c in ps.calls(lambda c: c.callee.get("path") == INC)]
                 v = mir.o_const_value(r)
+                is_span = None
+                for sbb, o, vals in ps.decisions():
+                    if o[0] == "call" and o[1].callee.get("name") == "matches" and "KindFilter" in (o[1].callee.get("self_ty") or o[1].callee.get("full") or ""):
+                        is_span = tuple(vals) not in (("0",), (0,))
+                if is_span and not inc:
+                    return False, ("a span event is decided (%s) without consulting incoming_traceparent: the sampler would be skipped for a root "
+                                   "span - e.g. under a sampled but invalid (all-zero) active traceparent" % o_str(r)), [], b.span
                 if v is True:
                     continue
                 if v is False:
@@ -217,6 +224,35 @@ def run(chk):
                         return False, "outside a trace the filter returns %s, not its configured default" % o_str(r), [], b.span
         return True, "", [b.span]
     chk.ob("C18.R3:InSampledTraceFilter", "events follow the active trace's sampled flag, or the configured default outside traces", r3b)
+
+    def push_parent():
+        """Every push of an incoming header: the span parent is the active span id only within the same trace, nothing otherwise."""
+        bodies = [b for b in P.by_crate["emit_traceparent"] if not b.is_closure and b.key.split("::")[-1] == "push" and
+                  [c for c in b.calls(normal_only=True) if c.callee.get("name") == "is_parent_of"]]
+        if len(bodies) < 2:
+            raise mir.AnchorMissing("push functions with a same-trace test (found %d)" % len(bodies))
+        sites = []
+        for b in bodies:
+            ip = [c for c in b.calls(normal_only=True) if c.callee.get("name") == "is_parent_of"]
+            for bb_, j_, st in b.statements(normal_only=True):
+                if st["k"] == "assign" and st["rv"]["k"] == "agg" and (st["rv"].get("adt") or "").endswith("ActiveTraceparent"):
+                    fo = dict(zip(st["rv"]["fields"], st["rv"]["ops"]))
+                    o = b.origin(fo["span_parent"])
+                    alts = o[1] if o[0] == "phi" else [o]
+                    for a in alts:
+                        if a[0] == "agg" and a[1].get("variant") == "None":
+                            continue
+                        names = mir.o_field_path(a)[1]
+                        if names[-2:] == ["traceparent", "span_id"]:
+                            continue
+                        return False, ("%s sets the pushed header's span parent to %s: outside the active trace a pushed header has no parent, "
+                                       "inside it the parent is the active span id" % (b.key, o_str(a))), [], ip[0].loc
+                    sites.append("%s:%s" % (b.file, st.get("line")))
+            # the active span id is used only on the same-trace edge
+            for bb_, j_, st in b.statements(normal_only=True):
+                pass
+        return True, "", sites
+    chk.ob("C18.R6:push-parent", "a pushed header's span parent is the active span id within the same trace and absent otherwise, in every push", push_parent)
 
     # ---- R4 ---------------------------------------------------------------------------------------------------------
     def swap_method(name):
